@@ -349,17 +349,42 @@ func rtMemoReplay(a *aggregator, v *rtView, f *ssa.Function) {
 			case n == "position" && whole:
 				// m.Partial[len(m.Partial)-1].end
 				good := false
+				// &m.Partial[len(m.Partial)-1]
+				isLastAddr := func(x ssa.Value) bool {
+					ia, ok := x.(*ssa.IndexAddr)
+					if !ok || !isMField(ia.X, "Partial") {
+						return false
+					}
+					bo, ok := ia.Index.(*ssa.BinOp)
+					if !ok || bo.Op != token.SUB {
+						return false
+					}
+					call, ok := bo.X.(*ssa.Call)
+					if !ok || calleeName(call) != "builtin.len" || !isMField(call.Call.Args[0], "Partial") {
+						return false
+					}
+					k, ok := bo.Y.(*ssa.Const)
+					return ok && k.Value.String() == "1"
+				}
 				if u, ok := st.Val.(*ssa.UnOp); ok && u.Op == token.MUL {
 					if fa, ok := u.X.(*ssa.FieldAddr); ok {
 						if stt := derefStruct(fa.X.Type()); stt != nil && stt.Field(fa.Field).Name() == "end" {
-							if ia, ok := fa.X.(*ssa.IndexAddr); ok && isMField(ia.X, "Partial") {
-								if bo, ok := ia.Index.(*ssa.BinOp); ok && bo.Op == token.SUB {
-									if call, ok := bo.X.(*ssa.Call); ok && calleeName(call) == "builtin.len" && isMField(call.Call.Args[0], "Partial") {
-										if k, ok := bo.Y.(*ssa.Const); ok && k.Value.String() == "1" {
-											good = true
+							switch base := fa.X.(type) {
+							case *ssa.IndexAddr:
+								good = isLastAddr(base)
+							case *ssa.Alloc:
+								// a local copy of the last token: last := m.Partial[len(m.Partial)-1]
+								n, okAll := 0, true
+								for _, ref := range *base.Referrers() {
+									if s2, ok := ref.(*ssa.Store); ok && s2.Addr == ssa.Value(base) {
+										n++
+										ld, ok := s2.Val.(*ssa.UnOp)
+										if !ok || ld.Op != token.MUL || !isLastAddr(ld.X) {
+											okAll = false
 										}
 									}
 								}
+								good = n == 1 && okAll
 							}
 						}
 					}
